@@ -28,6 +28,8 @@ def client_case(draw):
     c["z"] = r.normal(0, 1, fa.CF)
     c["y"] = r.normal(0, 1, fa.rV) if c["jfa"] else None
     c["z_2d"] = (not c["jfa"]) and gen.boolean(draw)  # ISVMachine.enroll returns a (1, CF) array
+    if gen.choice(draw, [False, False, False, True]):
+        c["stats_layout"] = "lazy"  # probe statistics whose arrays are still Dask arrays (acc_stats of a Dask array)
     return c
 
 
